@@ -477,6 +477,24 @@ def driver_skeleton():
     return sk.nopaque, term
 
 
+def warn_supported():
+    """the transformations the tool's own help text names as supporting --warn-on-counter-out-of-bounds"""
+    src = open(os.path.join(CD, 'ClangDelta.cpp')).read()
+    m = re.search(r'"\s*--warn-on-counter-out-of-bounds:\s*"(.*?)<<\s*"\\n"', src, flags=re.DOTALL)
+    if not m:
+        raise TranslatorError('ClangDelta.cpp: help text of --warn-on-counter-out-of-bounds not found')
+    text = ''.join(re.findall(r'"((?:[^"\\]|\\.)*)"', m.group(1)))
+    m2 = re.search(r'\(([^()]*) (?:is|are) supported\)', text)
+    if not m2:
+        raise TranslatorError(f'ClangDelta.cpp: help text of --warn-on-counter-out-of-bounds does not list the supported transformations: {text!r}')
+    names = [w for w in re.split(r'[\s,]+', m2.group(1)) if w and w != 'and']
+    known = {r[0] for r in registrations()}
+    for w in names:
+        if w not in known:
+            raise TranslatorError(f'ClangDelta.cpp: help text names {w!r}, which is not a registered transformation')
+    return names
+
+
 def counter_validity_table():
     """Transformation::checkCounterValidity() evaluated for the 8 combinations of (counter > instances,
     to-counter > instances, warn flag): -> rows (c, t, w, returns_false, sets_max_instance_error).
@@ -721,6 +739,8 @@ def generate():
     out.append('(* Transformation::checkCounterValidity: (counter > instances, to-counter > instances, warn, returns false, sets TransMaxInstanceError) *)')
     out.append('Definition counter_validity_table : list (bool * bool * bool * bool * bool) := '
                + coq_list(['(%s, %s, %s, %s, %s)' % tuple(b(x) for x in r) for r in counter_validity_table()]) + '.')
+    out.append('(* the transformations that the help text of --warn-on-counter-out-of-bounds names as supporting it *)')
+    out.append('Definition warn_supported : list string := ' + coq_list([coq_string(x) for x in warn_supported()], 'string') + '.')
     dn, dterm = driver_skeleton()
     out.append(f'(* TransformationManager::doTransformation: effects = opening / writing the output *)\nDefinition driver_skeleton : nat * stmt := ({dn}, {dterm}).')
     write_if_changed('ClangDelta.v', '\n'.join(out) + '\n')
